@@ -178,6 +178,10 @@ def run(tier: str) -> int:
     o.exhaustive = True
     mid = cases[len(cases) // 2]
     o.sample({"page": tr.render(mid["page"]), "options": mid["o"], "model_events": mid["ev"][:10], "model_out": tr.text(mid["out"])})
+    # the per-page session state machine (spec/Session.tla): titles / sections stamped on messages, lists
+    # emptied by start_page, path restored after every call, in longer mixed sessions
+    import c16s
+    common.with_engine(o, "session", lambda: c16s.extend(o, tier))
     return o.finish()
 
 
@@ -187,6 +191,9 @@ PREBODY = [{"k": "t", "s": ["<"]}, {"k": "c", "name": "T1", "args": [{"named": F
 
 def replay(path: str) -> int:
     v = json.loads(Path(path).read_text())
+    if v.get("case", {}).get("engine") == "session":
+        import c16s
+        return c16s.replay(path)
     print(json.dumps(v, indent=1)[:2500])
     return 1
 
